@@ -8,7 +8,8 @@ from harness import molgen as MG
 from harness.fprcheck import FprCheck, build, observable
 
 FLOATERS = ["[Na+].[Cl-]", "CC(=O)[O-].[Na+]", "C[NH3+].[Cl-]", "O.CCO", "[K+].[O-]C(=O)c1ccccc1", "O.O.CC(=O)O",
-            "[Ca+2].[Cl-].[Cl-].CCO", "[Na+].CCO", "[Cl-].C[N+](C)(C)C", "C[S+](C)C.[I-]"]
+            "[Ca+2].[Cl-].[Cl-].CCO", "[Na+].CCO", "[Cl-].C[N+](C)(C)C", "C[S+](C)C.[I-]",
+            "[NH4+].[Cl-]", "C.[Na+].O", "O.[Na+]", "[NH4+].[NH4+].[O-]S(=O)(=O)[O-]"]
 
 
 def floating_atoms(mol):
